@@ -32,7 +32,7 @@ def gen_data_family(rng, n_roots=(1, 2)):
     roots = []
     used_o = set()
     used_t = set()
-    ctyp = rng.pick(['int', 'str'])      # one label type per descriptor across the family (numpy coerces mixed columns)
+    ctyp = rng.pick(['int', 'str', 'float'])      # one label type per descriptor across the family (numpy coerces mixed columns)
     n_ch = rng.pick([1, 1, 2, 3, 4, 5])
     cu = rng.sample(range(0, 31), n_ch)
     ch_desc = {'roi': gen.gen_grouping(rng, n_ch), 'name': {'values': ['ch%d' % u for u in cu], 'container': rng.pick(['list', 'array'])}}
@@ -50,7 +50,8 @@ def gen_data_family(rng, n_roots=(1, 2)):
         spec = {'temporal': temporal, 'ou': ou, 'cu': list(cu), 'tu': tu,
                 'obs_desc': {'cond': gen.gen_grouping(rng, n_obs, kinds=('groups', 'groups', 'unique', 'allsame'), typ=ctyp),
                              'run': gen.gen_grouping(rng, n_obs, kinds=('groups', 'unique'), typ='int')},
-                'ch_desc': ch_desc, 'time_desc': {},
+                'ch_desc': ch_desc, 'time_desc': {}, 'order': 'F' if rng.chance(0.2) else 'C',
+                'dtype': 'float32' if rng.chance(0.12) else 'float64',
                 'descriptors': {'subj': rng.pick(['s1', 's2']), 'sess': rng.pick([1, 2])}}
         if temporal and rng.chance(0.4):
             spec['time_desc']['phase'] = gen.gen_grouping(rng, n_time, kinds=('groups', 'unique'), typ='str')
@@ -61,6 +62,14 @@ def gen_data_family(rng, n_roots=(1, 2)):
 def _cont(d):
     v = d['values']
     return np.array(v) if d.get('container') == 'array' else list(v)
+
+
+def _layout(m, spec):
+    """memory layout / dtype of the measurements handed to the constructor (values are exact in float32 too)"""
+    m = m.astype(spec.get('dtype', 'float64'))
+    if spec.get('order') == 'F':
+        m = np.asfortranarray(m)
+    return m
 
 
 def build_dataset(spec):
@@ -74,12 +83,14 @@ def build_dataset(spec):
         ch[k] = _cont(d)
     if spec['temporal']:
         m = np.array([[[encd(o, c, t) for t in tu] for c in cu] for o in ou], dtype=float).reshape(len(ou), len(cu), len(tu))
+        m = _layout(m, spec)
         td = {'time': np.array([tval(t) for t in tu])}
         for k, d in spec['time_desc'].items():
             td[k] = _cont(d)
         return TemporalDataset(m, descriptors=dict(spec['descriptors']), obs_descriptors=obs, channel_descriptors=ch,
                                time_descriptors=td)
     m = np.array([[encd(o, c, None) for c in cu] for o in ou], dtype=float).reshape(len(ou), len(cu))
+    m = _layout(m, spec)
     return Dataset(m, descriptors=dict(spec['descriptors']), obs_descriptors=obs, channel_descriptors=ch)
 
 
@@ -566,6 +577,7 @@ class DataOps:
         sem['bins'] = [[src.sem['times'][i] for i in g] for g in groups]
         sem['times'] = [None] * len(groups)
         s = self.pool.add(res, 'tdataset', sem, 'bin_time', [src.sid])
+        s.parent_dtype = np.zeros(0, dtype=src.obj.measurements.dtype)     # means of float32 data carry float32 rounding
         self._check_binned(s, bins)
         self.pool.sweep('bin_time', args=[src.sid], produced=[s.sid])
         self.ctx.behaviour('bin_time', len(groups), o['flag'], o['flag2'])
@@ -587,7 +599,8 @@ class DataOps:
             for j, (c, _) in enumerate(cols):
                 for k, mem in enumerate(sem['bins']):
                     exp = float(np.mean([encd(o_, c, t) for t in mem]))
-                    if abs(m[i, j, k] - exp) > 1e-9 * (1 + abs(exp)):
+                    tol = 1e-6 if np.asarray(slot.parent_dtype if hasattr(slot, 'parent_dtype') else m).dtype == np.float32 else 1e-9
+                    if abs(m[i, j, k] - exp) > tol * (1 + abs(exp)):
                         return self._fail(slot, 'C11', 'bin_time', 'bin',
                                           f'binned cell obs {o_} channel {c} bin {k} (member time ids {mem}) is {m[i, j, k]!r}; the mean of exactly its members is {exp}')
         slot.sem = None      # a binned dataset leaves the semantic layer (values are no longer single source cells)
@@ -634,6 +647,9 @@ class DataOps:
             return False
         if any(tok[1] is not None for tok in src.sem['rows'] + src.sem['cols']):
             return False     # float time columns would be taken for channels by from_df: not admissible
+        if not o['flag'] and (any(isinstance(norm(x), float) for v in src.obj.obs_descriptors.values() for x in v)
+                              or any(isinstance(norm(v), float) for v in src.obj.descriptors.values())):
+            return False     # from_df(channels=None) takes every float column for a channel: float labels not admissible
         try:
             df = src.obj.to_df(channel_descriptor='name')
             res = Dataset.from_df(df, channels=names if o['flag'] else None, channel_descriptor='name')
